@@ -3,6 +3,7 @@ import CssVerif.Lemmas.NumColor
 import CssVerif.Lemmas.NumStr
 import CssVerif.Model.NumF64
 import CssVerif.Lemmas.NumF64
+import CssVerif.Lemmas.NumPV
 /-!
 # C18 — value normalisation never changes what a value denotes
 
@@ -306,6 +307,90 @@ theorem calc_separators_small_scope : calcSamplesOk = true := by decide +kernel
 example : fmtCalc f64Ops { Prefs.default with spacer := [], omitLeadingZero := true }
     [.func (cps "calc("), .operand .percentage (cps "100%"), .s, .op (cps "-"), .s, .operand .dimension (cps "0.50px"),
      .rparen] = .ok (cps "calc(100% - .5px)") := by decide +kernel
+
+/-! ## T18.5 order and separators of the components of a whole value
+
+`fmtPV` / `Comp.text` / `Args.fmt` (`Model/NumPV.lean`) transcribe `do_css_PropertyValue` and `do_css_CSSFunction`
+item by item on top of `Out.append`. `pvRender` / `Comp.render` / `Args.render` (`Lemmas/NumPV.lean`) are the
+specification: they do not know `Out`; the text of a value (of a function) is the texts of its components (its name,
+its arguments, `)`) **in source order**, with `,` + `listItemSpacer` exactly where the source has a comma, `/` exactly
+where it has a slash, and the spacer (one blank if the spacer is empty) exactly between two adjacent components —
+nothing else, nothing dropped, nothing reordered, at every nesting depth. The rendering is defined for every item
+sequence in which a separator stands between two components (the only ones the grammar of `PropertyValue` /
+`CSSFunction` produces; the harness checks this shape on every parsed value).
+
+Hypotheses: the spacer is white space (`isBlank`), and every *leaf* is written as an ordinary word (`Plain`: a
+character that is neither white space nor punctuation of `Out.append`, no unescaped blank at the end, no `*` at the
+start) — proved here for strings and URLs, for function texts (so it propagates upwards), checked by the harness on
+the written text of every number, identifier, colour and `calc()` of every generated value. -/
+
+/-- **T18.5** for a function (any nesting depth): `CSSFunction.cssText` is the rendering of its structure — the
+name, the arguments in source order, `,` + `listItemSpacer` for a comma, the spacer between adjacent arguments,
+`)` — and it is again an ordinary word, under every preference record with a blank spacer -/
+theorem function_written_structure (ops : NumOps) (p : Prefs) (hsp : isBlank p.spacer = true) (c : Comp) (t : List Nat)
+    (hl : Comp.LeavesPlain ops p c) (hr : Comp.render ops p c = .ok t) :
+    Comp.text ops p c = .ok t ∧ Plain t :=
+  Comp.text_of_render ops p hsp c t hl hr
+
+/-- **T18.5** for a whole value: `PropertyValue.cssText` is the rendering of its structure — the components in source
+order (each written by its own serializer), `,` + `listItemSpacer` where the source has a comma, `/` where it has a
+slash, the spacer (one blank if empty) between adjacent components — for every value with at least one component,
+under every preference record with a blank spacer -/
+theorem value_written_structure (ops : NumOps) (p : Prefs) (hsp : isBlank p.spacer = true) (items : List PVItem)
+    (r : List Nat) (hl : ∀ i ∈ items, PVItem.LeavesPlain ops p i) (hv : items.any PVItem.isValue = true)
+    (hr : pvRender ops p items .first = .ok r) : fmtPV ops p items = .ok r :=
+  fmtPV_of_render ops p hsp items r hl hv hr
+
+/-- the hypothesis on the leaves holds for every STRING and URI value, whatever its content: they are written as
+`helper.string` / `helper.uri` of the stored value, which start with `"` / `u` and end with `"` / `)` -/
+theorem string_uri_leaves_plain (ops : NumOps) (p : Prefs) (hsp : isBlank p.spacer = true) (v : List Nat) :
+    Comp.LeavesPlain ops p (.simple .string v) ∧ Comp.LeavesPlain ops p (.uri v) := by
+  constructor
+  · intro t h
+    simp only [Comp.text, (fmtSimple_quoted p hsp v).1] at h
+    injection h with h; subst h; exact plain_helperString v
+  · intro t h
+    simp only [Comp.text, (fmtSimple_quoted p hsp v).2] at h
+    injection h with h; subst h; exact plain_helperUri v
+
+/-- the separators are the only place where a spacer preference shows: with two preference records that agree on
+`omitLeadingZero` / `minimizeColorHash` the renderings of a comma-free, slash-free pair of leaves differ exactly in the
+spacer (instance of the rendering, spelled out) -/
+theorem pair_rendering (ops : NumOps) (p : Prefs) (a b : Comp) (ta tb : List Nat)
+    (ha : Comp.render ops p a = .ok ta) (hb : Comp.render ops p b = .ok tb) :
+    pvRender ops p [.comp a, .comp b] .first = .ok (ta ++ sepSpace p ++ tb) ∧
+    pvRender ops p [.comp a, .op (cps ","), .comp b] .first = .ok (ta ++ cps "," ++ p.listItemSpacer ++ tb) ∧
+    pvRender ops p [.comp a, .op (cps "/"), .comp b] .first = .ok (ta ++ cps "/" ++ tb) := by
+  have n : cps "/" ≠ cps "," := by decide
+  simp [pvRender, ha, hb, n]
+
+/-- non-vacuity of `value_written_structure` / `function_written_structure`, minified preferences (both spacers
+empty), `sampleValue` = `1.50px/"a" , f(g(0.5,url(x y)) b)`: the hypotheses hold, the rendering is defined, and the
+written text is `1.5px/"a",f(g(.5,url("x y")) b)` -/
+example :
+    isBlank samplePrefs.spacer = true ∧ (∀ i ∈ sampleValue, PVItem.LeavesPlain exactOps samplePrefs i) ∧
+      sampleValue.any PVItem.isValue = true ∧ pvRender exactOps samplePrefs sampleValue .first = .ok sampleText ∧
+      fmtPV exactOps samplePrefs sampleValue = .ok sampleText := by
+  have hr : pvRender exactOps samplePrefs sampleValue .first = .ok sampleText := by decide +kernel
+  have hb : isBlank samplePrefs.spacer = true := by decide
+  have hl : ∀ i ∈ sampleValue, PVItem.LeavesPlain exactOps samplePrefs i := by
+    have leaf : ∀ (c : Comp) (t0 : List Nat), Comp.text exactOps samplePrefs c = .ok t0 → Plain t0 →
+        ∀ t, Comp.text exactOps samplePrefs c = .ok t → Plain t := by
+      intro c t0 h0 hp t h; exact Except.ok.inj (h0.symm.trans h) ▸ hp
+    intro i hi
+    simp only [sampleValue, List.mem_cons, List.mem_nil_iff, or_false] at hi
+    rcases hi with rfl | rfl | rfl | rfl | rfl
+    · simp only [PVItem.LeavesPlain, Comp.LeavesPlain]
+      exact leaf (.num .dimension (cps "1.50px")) (cps "1.5px") (by decide +kernel) (by decide)
+    · trivial
+    · exact (string_uri_leaves_plain exactOps samplePrefs hb _).1
+    · trivial
+    · simp only [PVItem.LeavesPlain, Comp.LeavesPlain, Args.LeavesPlain, and_true]
+      refine ⟨by decide, ⟨by decide, ?_, ?_⟩, ?_⟩
+      · exact leaf (.num .number (cps "0.5")) (cps ".5") (by decide +kernel) (by decide)
+      · exact (string_uri_leaves_plain exactOps samplePrefs hb _).2
+      · exact leaf (.simple .ident (cps "b")) (cps "b") (by decide +kernel) (by decide)
+  exact ⟨hb, hl, by decide, hr, value_written_structure exactOps samplePrefs hb sampleValue _ hl (by decide) hr⟩
 
 /-! ## strings and URLs
 
